@@ -332,3 +332,187 @@ func VerifC01LiveReader() {
 	}
 	vCover("done")
 }
+
+// VerifC01Headers: 1-2 single-message appends (directly or as a replicated
+// message set) of messages with 0-2 headers whose names (0-2 symbolic bytes,
+// pairwise distinct) and values (nil | empty | 1-2 symbolic bytes) are arbitrary,
+// arbitrary segment size, optional clean restart: the headers read back are
+// exactly the stored ones, together with key, value, timestamp and epoch.
+func VerifC01Headers() {
+	dir := vTempDir()
+	seg := vNondetInt64("segbytes")
+	vAssume(seg >= 1)
+	vAssume(seg <= 4096)
+	l, err := New(vOpts(dir, seg))
+	vAssert(err == nil, "New succeeds on an empty directory")
+	n := vParam("msgs", 2)
+	type hdr struct {
+		name string
+		val  []byte
+	}
+	var model []vStored
+	var hmodel [][]hdr
+	var prevTs int64
+	for i := 0; i < n; i++ {
+		m, st := vDrawMsgShaped(prevTs, 1, false, 2, 2)
+		prevTs = st.Timestamp
+		st.Offset = int64(i)
+		nh := vChoose(3)
+		var hs []hdr
+		if nh > 0 {
+			m.Headers = map[string][]byte{}
+		}
+		for j := 0; j < nh; j++ {
+			name := vNondetString("hname", vChoose(3))
+			for _, h := range hs {
+				vAssume(h.name != name)
+			}
+			// nil | empty | 1-2 symbolic bytes (a protobuf map entry without a
+			// value field decodes to a nil header value)
+			val, _ := vField("hval", vChoose(4))
+			hs = append(hs, hdr{name, val})
+			m.Headers[name] = val
+		}
+		model = append(model, st)
+		hmodel = append(hmodel, hs)
+		if vChoose(2) == 0 {
+			offs, err := l.Append([]*Message{m})
+			vAssert(err == nil, "Append succeeds")
+			vAssert(len(offs) == 1, "one offset per message")
+			vAssert(offs[0] == int64(i), "assigned offsets are consecutive")
+		} else {
+			ms, _, err := newMessageSetFromProto(int64(i), 0, []*Message{m}, false)
+			vAssert(err == nil, "message set encodes")
+			offs, err := l.AppendMessageSet(ms)
+			vAssert(err == nil, "AppendMessageSet succeeds")
+			vAssert(len(offs) == 1, "one offset per replicated message")
+			vAssert(offs[0] == int64(i), "replicated messages keep their offsets")
+			vCover("append-set")
+		}
+	}
+	if vChoose(2) == 1 {
+		vAssert(l.Close() == nil, "Close succeeds")
+		l, err = New(vOpts(dir, seg))
+		vAssert(err == nil, "New succeeds on an existing log")
+		vCover("reopen")
+	}
+	for from := 0; from < n; from++ {
+		r, err := l.NewReader(int64(from), true)
+		vAssert(err == nil, "NewReader(uncommitted) succeeds")
+		buf := make([]byte, 28)
+		for i := from; i < n; i++ {
+			m, off, ts, ep, err := r.ReadMessage(vCtx(), buf)
+			vAssert(err == nil, "ReadMessage of a present offset succeeds")
+			if err != nil {
+				return
+			}
+			vAssert(off == int64(i), "offsets read back consecutively")
+			vAssert(ts == model[i].Timestamp, "read-back timestamp")
+			vAssert(ep == 1, "read-back leader epoch")
+			vAssert(vBytesEq(m.Key(), model[i].Key), "read-back key bytes")
+			vAssert(vBytesEq(m.Value(), model[i].Value), "read-back value bytes")
+			h := m.Headers()
+			vAssert(len(h) == len(hmodel[i]), "as many headers read back as were stored")
+			for _, w := range hmodel[i] {
+				hv, ok := h[w.name]
+				vAssert(ok, "header name read back")
+				vAssert(vBytesEq(hv, w.val), "header value read back")
+			}
+			if len(hmodel[i]) == 2 {
+				vCover("two-headers")
+			}
+		}
+	}
+	vCover("done")
+}
+
+// VerifC01IndexGrowth: the memory-mapped index as a unit, with a small
+// pre-allocated size (1-4 entries instead of the default 524 288) so that the
+// growth path is within the bound: batches of 1-3 entries with arbitrary field
+// values are written; after every batch each entry written so far reads back
+// exactly (by file offset and through the scanner), the position counts the
+// entries; after Close and reopen the position and the last entry are found
+// again. (The log layer can only reach the growth path with more than half a
+// million messages in one segment.)
+func VerifC01IndexGrowth() {
+	dir := vTempDir()
+	slots := int64(1 + vChoose(4))
+	base := vNondetInt64("base")
+	vAssume(base >= 0)
+	vAssume(base <= 1<<40)
+	mk := func() *index {
+		idx, err := newIndex(options{path: dir + "/x.index", bytes: slots * entryWidth, baseOffset: base})
+		vAssert(err == nil, "newIndex succeeds")
+		_, err = idx.InitializePosition()
+		vAssert(err == nil, "InitializePosition succeeds")
+		return idx
+	}
+	idx := mk()
+	vAssert(idx.Position() == 0, "a new index is empty")
+	batches := vParam("batches", 2)
+	var model []entry
+	prevRel, prevPos := int32(-1), int32(-1)
+	for b := 0; b < batches; b++ {
+		k := 1 + vChoose(3)
+		var es []*entry
+		for i := 0; i < k; i++ {
+			// as the segment writes them: offsets and positions strictly increase
+			rel := vNondetInt32("rel")
+			vAssume(rel > prevRel)
+			prevRel = rel
+			pos := vNondetInt32("pos")
+			vAssume(pos > prevPos)
+			prevPos = pos
+			sz := vNondetInt32("size")
+			vAssume(sz > 0) // a stored message is never empty; an all-zero entry means "free slot"
+			e := &entry{Offset: base + int64(rel), Timestamp: vNondetInt64("ts"), Position: int64(pos), Size: sz}
+			es = append(es, e)
+			model = append(model, *e)
+		}
+		if int64(len(model)) > slots {
+			vCover("grown")
+		}
+		if int64(len(model)) > slots && int64(len(model)-k) < slots-1 {
+			vCover("batch-straddles-the-mapped-end")
+		}
+		vAssert(idx.writeEntries(es) == nil, "writeEntries succeeds")
+		vAssert(idx.Position() == int64(len(model))*entryWidth, "the position counts the entries written")
+		vAssert(idx.CountEntries() == int64(len(model)), "CountEntries counts the entries written")
+		for i, w := range model {
+			var got entry
+			vAssert(idx.ReadEntryAtFileOffset(&got, int64(i)*entryWidth) == nil, "an entry that was written can be read")
+			vAssert(got.Offset == w.Offset, "index entry offset as written")
+			vAssert(got.Timestamp == w.Timestamp, "index entry timestamp as written")
+			vAssert(got.Position == w.Position, "index entry position as written")
+			vAssert(got.Size == w.Size, "index entry size as written")
+		}
+		var e entry
+		vAssert(idx.ReadEntryAtFileOffset(&e, int64(len(model))*entryWidth) != nil, "nothing is readable beyond the last entry")
+	}
+	sc := newIndexScanner(idx)
+	for _, w := range model {
+		got, err := sc.Scan()
+		vAssert(err == nil, "the scanner returns every entry")
+		if err != nil {
+			return
+		}
+		vAssert(got.Offset == w.Offset, "scanner: entry offset as written")
+		vAssert(got.Position == w.Position, "scanner: entry position as written")
+	}
+	_, err := sc.Scan()
+	vAssert(err != nil, "the scanner ends after the last entry")
+	vAssert(idx.Close() == nil, "Close succeeds")
+	idx2, err := newIndex(options{path: dir + "/x.index", bytes: slots * entryWidth, baseOffset: base})
+	vAssert(err == nil, "newIndex succeeds on an existing file")
+	last, err := idx2.InitializePosition()
+	vAssert(err == nil, "InitializePosition succeeds on a closed index")
+	vAssert(idx2.Position() == int64(len(model))*entryWidth, "a reopened index finds its position")
+	if last != nil {
+		w := model[len(model)-1]
+		vAssert(last.Offset == w.Offset, "a reopened index finds its last entry")
+		vAssert(last.Position == w.Position, "a reopened index finds its last entry")
+	} else {
+		vAssert(false, "a reopened non-empty index reports its last entry")
+	}
+	vCover("done")
+}
